@@ -297,6 +297,14 @@ func (d *Data) streamRawBlock(ctx *datastore.VersionedCtx, w http.ResponseWriter
 	if err != nil {
 		return err
 	}
+	if block == nil {
+		// nothing stored at this block coordinate: it reads as label 0, like any other unwritten region
+		blockSize, ok := d.BlockSize().(dvid.Point3d)
+		if !ok {
+			return fmt.Errorf("block size for data %q is not 3d: %v", d.DataName(), d.BlockSize())
+		}
+		block = labels.MakeSolidBlock(0, blockSize)
+	}
 	if !supervoxels {
 		mapping, err := getMapping(d, ctx.VersionID())
 		if err != nil {
